@@ -236,7 +236,9 @@ def buildStep (ext : Ext) (env : Env) (s : BState) (op : DefOp) : Except DefErr 
     pure { s with P := s.P.modNode n fun nd => { nd with synArgs := nd.synArgs ++ [(a, d)] } }
   | .self h name desc => do
     let n ← handle s h
-    pure { s with P := s.P.modNode n fun nd => { nd with name := name, description := desc } }
+    -- an empty name stands for the executable's name
+    pure { s with P := s.P.modNode n fun nd =>
+      { nd with name := if name.isEmpty then ext.exeName else name, description := desc } }
   | .help h name mods => do
     let n ← handle s h
     let P1 ← defineOpt ext env s.P n .bool name (.b false) [] 0 0 mods
